@@ -958,8 +958,11 @@ fn mutate(prog: &Prog, r: &mut Prng, style: &Style) -> (String, bool, &'static s
             let p2 = with_block(&p, r);
             let text = plain(&p2, r);
             // wrong terminator
-            let t = if text.contains("end loop") { text.replacen("end loop", "end while", 1) } else { text.replacen("end while", "end loop", 1) };
-            (t, true, "wrong-terminator")
+            // (in the body only: header names may be spelled `end` and `loop`)
+            let body_at = text.find('\n').map(|i| i + 1).unwrap_or(text.len());
+            let (head, body) = text.split_at(body_at);
+            let body = if body.contains("end loop") { body.replacen("end loop", "end while", 1) } else { body.replacen("end while", "end loop", 1) };
+            (format!("{head}{body}"), true, "wrong-terminator")
         }
         2 => {
             let mut text = plain(&p, r);
